@@ -19,6 +19,7 @@ def gen_case(rng, cap, tgt=64 * 1024 * 1024, adds=False, big=False, many=False):
         for _ in range(rng.choice([1, 2, 3]) if not many else 1):
             chunks = []
             pos = 0
+            style = rng.choice(["sum", "zero", "any"])
             for _ in range(rng.choice([1, 2, 3, 5, 8]) if not many else rng.choice([2, 3, 4])):
                 r = rng.random()
                 if pool and r < 0.3:
@@ -31,7 +32,7 @@ def gen_case(rng, cap, tgt=64 * 1024 * 1024, adds=False, big=False, many=False):
                     continue
                 used.add(ch[:8])
                 ln = rng.choice([1, 100, 8192, 65536, rng.randrange(1, 131073)])
-                chunks.append((ch, ln, pos, 0))
+                chunks.append((ch, ln, shardgen.start_of(rng, style, pos), 0))
                 pos += ln
             if chunks:
                 blocks.append({"hash": shardgen.mk_hash(rng), "flags": rng.choice([0, 0, 5]), "nbytes": pos & 0xFFFFFFFF, "ndisk": pos & 0xFFFFFFFF, "chunks": chunks})
@@ -57,6 +58,7 @@ def gen_case(rng, cap, tgt=64 * 1024 * 1024, adds=False, big=False, many=False):
     def new_block():
         chunks = []
         pos = 0
+        style = rng.choice(["sum", "zero", "any"])
         for _ in range(rng.choice([1, 2, 3, 5]) if not many else rng.choice([1, 2])):
             r = rng.random()
             if pool and r < 0.25:
@@ -69,7 +71,7 @@ def gen_case(rng, cap, tgt=64 * 1024 * 1024, adds=False, big=False, many=False):
                 continue
             added_used.add(ch[:8])
             ln = rng.choice([1, 100, 8192, rng.randrange(1, 131073)])
-            chunks.append((ch, ln, pos, 0))
+            chunks.append((ch, ln, shardgen.start_of(rng, style, pos), 0))
             pos += ln
         if not chunks:
             return None
@@ -161,3 +163,27 @@ def count(counters, case, io):
 
 
 SELFCHECK = ["mgr_queries_answered", "mgr_queries_unanswered", "mgr_registrations", "mgr_blocks_added", "mgr_flushes"]
+
+
+def big_streams(rng):
+    """Xorbs of more than 65536 chunks (another client's; this one cuts at 8192): the manager's index holds 16-bit chunk
+    offsets, so chunks past offset 65535 are not indexed -- a query that starts there may go unanswered but must never be
+    answered wrongly.  Oracle only (the executable model sorts by insertion; 70000 entries are out of its reach)."""
+    from . import shardgen
+    cases = []
+    for i, n in enumerate([65530, 65537, 66000, 70000]):
+        seed = rng.getrandbits(40)
+        h = shardgen.mk_hash(rng).hex()
+        small = {"hash": shardgen.mk_hash(rng), "flags": 0, "nbytes": 300, "ndisk": 300,
+                 "chunks": [(shardgen.mk_hash(rng), 100, 100 * k, 0) for k in range(3)]}
+        qs = []
+        for a, ln in [(0, 3), (65534, 1), (65535, 1), (65535, 3), (65536, 1), (65536, 2), (n - 2, 2), (n - 1, 1), (40000, 5)]:
+            if a + ln <= n:
+                qs.append("qbig %d %d %d" % (seed, a, ln))
+        if i % 2 == 0:
+            ops = ["cap 100000000", "tgt %d" % DEFAULT_TGT, "Cbig %s %d %d" % (h, n, seed), shardgen.fmt_cas(small), "==", "R 0"] + qs
+        else:
+            ops = ["cap 100000000", "tgt %d" % DEFAULT_TGT, shardgen.fmt_cas(small), "==", "R 0", "Abig %s %d %d" % (h, n, seed)] + qs[:4] + ["FL"] + qs
+        cases.append({"id": "big%d" % i, "text": " | ".join(ops), "meta": {"cap": 100000000, "tgt": DEFAULT_TGT, "big": n}})
+    return [{"name": "mgr", "cases": cases, "model": False, "timeout": 1500,
+             "env": {"HF_XET_CHUNK_INDEX_TABLE_MAX_SIZE": "100000000", "HF_XET_MDB_SHARD_MIN_TARGET_SIZE": str(DEFAULT_TGT), "XET_VERIF_SKIP_SHARD_INTEGRITY_CHECK": "1"}}]
